@@ -400,15 +400,387 @@ theorem clause6_sim (values : Bytes) (e : Env) (s : RebState) (t : UInt8) (fuel 
     by_cases hv : val.toNat > s.tape.size
     · rw [if_pos hv]
       have hv' : UInt64.ofNat s.tape.size < val := hcmp.mpr hv
-      refine ⟨_, true, ?_⟩
       simp [h1, h2, h3, h4, h5, h6, errRet, a1, a3, a5, a7, hlt, ofInt_nat, hval, hv']
-      trace_state
-      sorry
     · rw [if_neg hv]
       have hv' : ¬ UInt64.ofNat s.tape.size < val := fun h => hv (hcmp.mp h)
       simp only [wr, hlt, dite_true, Res.bind_ok, Array.size_set, StepSim, Rep]
       simp [h1, h2, h3, h4, h5, h6, errRet, a1, a3, a5, a7, hlt, ofInt_nat, hval, hv']
-      trace_state
-      sorry
+      exact hrest
+
+/-- `case TagObjectStart, TagArrayStart` -/
+theorem clause5_sim (values : Bytes) (e : Env) (s : RebState) (t : UInt8) (fuel : Nat)
+    (hR : Rep values e s) (hT : TagVars t e) (hlt : s.off < s.tape.size) (hsz : s.tape.size + 1 < 2^64) :
+    StepSim values (fun _ => True) (exec goFuns fuel (caseBody 5) ⟨e, s.tape⟩)
+      (if values.size - s.vpos < 8 then .error .generic else
+        if (rdLE64 values s.vpos + UInt64.ofNat s.off).toNat > s.tape.size ∨
+            (rdLE64 values s.vpos + UInt64.ofNat s.off).toNat < s.off + 2 then .error .generic else do
+        let tp ← wr s.tape s.off ((t.toUInt64 <<< 56) ||| (rdLE64 values s.vpos + UInt64.ofNat s.off))
+        let tp ← wr tp ((rdLE64 values s.vpos + UInt64.ofNat s.off).toNat - 1)
+          (((openToClose t).toUInt64 <<< 56) ||| UInt64.ofNat s.off)
+        .ok { s with tape := tp, off := s.off + 1, vpos := s.vpos + 8 }) := by
+  obtain ⟨h1, h2, h3, h4⟩ := hR
+  obtain ⟨h5, h6⟩ := hT
+  have hbody : caseBody 5 = [
+      .ite (.bin .lt (.lenB (.v "values")) (.int 8)) errRet [],
+      .assign "val" (.le64 (.sliceB (.v "values") (.int 0) (.int 8))),
+      .assign "values" (.sliceB (.v "values") (.int 8) (.lenB (.v "values"))),
+      .assign "val" (.bin .add (.v "val") (.conv .u64 (.v "off"))),
+      .ite (.lor (.bin .gt (.v "val") (.conv .u64 (.lenTape "dst")))
+        (.bin .lt (.v "val") (.bin .add (.conv .u64 (.v "off")) (.u64 2)))) errRet [],
+      .tapeSet "dst" (.v "off") (.bin .or (.v "tagDst") (.v "val")),
+      .tapeSet "dst" (.bin .sub (.v "val") (.u64 1)) (.bin .or (.bin .shl (.conv .u64 (.tbl "tagOpenToClose" (.v "tag"))) (.int 56)) (.conv .u64 (.v "off"))),
+      .assign "off" (.bin .add (.v "off") (.int 1))] := rfl
+  rw [hbody]
+  by_cases hl : values.size - s.vpos < 8
+  · rw [if_pos hl]
+    have hl' : ((values.size - s.vpos : Nat) : Int) < 8 := by omega
+    refine ⟨⟨e, s.tape⟩, true, ?_⟩
+    simp [h3, errRet, hl, hl']
+  · rw [if_neg hl]
+    have hvs : (values.extract s.vpos values.size).size = values.size - s.vpos := size_suffix _ _
+    have hlo := leU64_suffix_lo values s.vpos (by omega)
+    have hrest := suffix_suffix values s.vpos 8 (by omega)
+    rw [← hvs] at hrest
+    simp only [Rep, StepSim]
+    rw [← hlo]
+    generalize values.extract s.vpos values.size = v at *
+    have a1 : (8 : Int) ≤ v.size := by omega
+    have a3 : min 8 v.size = 8 := by omega
+    have a5 : ¬ ((v.size : Int) < 8) := by omega
+    have a7 : (s.off : Int) < s.tape.size := by omega
+    generalize hval : leU64 (v.extract 0 8) + UInt64.ofNat s.off = val
+    have hcmp := u64_ofNat_lt s.tape.size val (by omega)
+    have hoff2 : (UInt64.ofNat s.off + 2).toNat = s.off + 2 := by
+      rw [UInt64.toNat_add, UInt64.toNat_ofNat']
+      have : s.off % 2^64 = s.off := Nat.mod_eq_of_lt (by omega)
+      rw [this]
+      have : (2 : UInt64).toNat = 2 := rfl
+      rw [this]
+      exact Nat.mod_eq_of_lt (by omega)
+    have hcmp2 : val < UInt64.ofNat s.off + 2 ↔ val.toNat < s.off + 2 := by
+      rw [UInt64.lt_iff_toNat_lt, hoff2]
+    by_cases hv : val.toNat > s.tape.size ∨ val.toNat < s.off + 2
+    · rw [if_pos hv]
+      by_cases hv1 : val.toNat > s.tape.size
+      · have hv' : UInt64.ofNat s.tape.size < val := hcmp.mpr hv1
+        simp [h1, h2, h3, h4, h5, h6, errRet, a1, a3, a5, a7, hlt, ofInt_nat, hval, hv']
+      · have hv' : ¬ UInt64.ofNat s.tape.size < val := fun h => hv1 (hcmp.mp h)
+        have hv2 : val < UInt64.ofNat s.off + 2 := hcmp2.mpr (by omega)
+        simp [h1, h2, h3, h4, h5, h6, errRet, a1, a3, a5, a7, hlt, ofInt_nat, hval, hv', hv2]
+    · rw [if_neg hv]
+      have hv' : ¬ UInt64.ofNat s.tape.size < val := fun h => hv (Or.inl (hcmp.mp h))
+      have hv2 : ¬ val < UInt64.ofNat s.off + 2 := fun h => hv (Or.inr (hcmp2.mp h))
+      have hk : (val - 1).toNat = val.toNat - 1 := by
+        apply UInt64.toNat_sub_of_le
+        rw [UInt64.le_iff_toNat_le]
+        have : (1 : UInt64).toNat = 1 := rfl
+        omega
+      have hk1 : val.toNat - 1 < s.tape.size := by omega
+      have hk2 : ((val.toNat - 1 : Nat) : Int) < s.tape.size := by omega
+      simp only [wr, hlt, hk1, dite_true, Res.bind_ok, Array.size_set, StepSim, Rep]
+      simp [h1, h2, h3, h4, h5, h6, errRet, a1, a3, a5, a7, hlt, ofInt_nat, hval, hv', hv2, hk, hk1, hk2, openToClose]
+      exact hrest
+
+/-- the two switches of the loop body = `dispatch` -/
+theorem dispatch_sim (values : Bytes) (e : Env) (s : RebState) (t : UInt8) (fuel : Nat)
+    (hR : Rep values e s) (hT : TagVars t e) (hlt : s.off < s.tape.size) (hsz : s.tape.size + 1 < 2^64) :
+    StepSim values (fun _ => True) (exec goFuns fuel [guardSw, mainSw] ⟨e, s.tape⟩) (dispatch values t s) := by
+  have h1 := hR.1
+  have h4 := hR.2.2.2
+  have h5 := hT.1
+  unfold dispatch
+  simp only [inCase_nop, inCase_string, inCase_num, inCase_flag, inCase_atom, inCase_open, inCase_root, inCase_close,
+    inCase_two, decide_eq_true_eq]
+  rw [exec, guard_exec e s.tape s.off s.tape.size t fuel h1 h4 h5]
+  by_cases hg : (t = 34 ∨ t = 100 ∨ t = 108 ∨ t = 117 ∨ t = 101) ∧ s.off + 1 ≥ s.tape.size
+  · rw [if_pos hg, if_pos hg]; exact ⟨_, _, rfl⟩
+  rw [if_neg hg, if_neg hg]
+  simp only []
+  rw [exec_single, mainSw_select e s.tape t fuel h5]
+  by_cases h0 : t = 78
+  · have hk : clauseOf t = some 0 := by simp [clauseOf, h0]
+    rw [hk, if_pos h0]
+    exact clause0_sim values e s t fuel hR
+  rw [if_neg h0]
+  by_cases h1' : t = 34
+  · have hk : clauseOf t = some 1 := by simp [clauseOf, h1']
+    rw [hk, if_pos h1']
+    refine clause1_sim values e s t fuel hR hT ?_
+    have : ¬ s.off + 1 ≥ s.tape.size := fun h => hg ⟨Or.inl h1', h⟩
+    omega
+  rw [if_neg h1']
+  by_cases h2 : t = 100 ∨ t = 108 ∨ t = 117
+  · have hk : clauseOf t = some 2 := by simp [clauseOf, h0, h1', h2]
+    rw [hk, if_pos h2]
+    refine clause2_sim values e s t fuel hR hT ?_
+    have : t = 34 ∨ t = 100 ∨ t = 108 ∨ t = 117 ∨ t = 101 := by
+      rcases h2 with h | h | h <;> simp [h]
+    have : ¬ s.off + 1 ≥ s.tape.size := fun h => hg ⟨this, h⟩
+    omega
+  rw [if_neg h2]
+  by_cases h3 : t = 101
+  · have hk : clauseOf t = some 3 := by simp [clauseOf, h3]
+    rw [hk, if_pos h3]
+    refine clause3_sim values e s t fuel hR ?_
+    have : t = 34 ∨ t = 100 ∨ t = 108 ∨ t = 117 ∨ t = 101 := by simp [h3]
+    have : ¬ s.off + 1 ≥ s.tape.size := fun h => hg ⟨this, h⟩
+    omega
+  rw [if_neg h3]
+  by_cases h4' : t = 110 ∨ t = 116 ∨ t = 102 ∨ t = 0
+  · have hk : clauseOf t = some 4 := by simp [clauseOf, h0, h1', h2, h3, h4']
+    rw [hk, if_pos h4']
+    exact clause4_sim values e s t fuel hR hT hlt
+  rw [if_neg h4']
+  by_cases h5' : t = 123 ∨ t = 91
+  · have hk : clauseOf t = some 5 := by simp [clauseOf, h0, h1', h2, h3, h4', h5']
+    rw [hk, if_pos h5']
+    exact clause5_sim values e s t fuel hR hT hlt hsz
+  rw [if_neg h5']
+  by_cases h6 : t = 114
+  · have hk : clauseOf t = some 6 := by simp [clauseOf, h6]
+    rw [hk, if_pos h6]
+    exact clause6_sim values e s t fuel hR hT hlt (by omega)
+  rw [if_neg h6]
+  by_cases h7 : t = 125 ∨ t = 93
+  · have hk : clauseOf t = some 7 := by simp [clauseOf, h0, h1', h2, h3, h4', h5', h6, h7]
+    rw [hk, if_pos h7]
+    exact clause7_sim values e s t fuel hR hT hlt
+  rw [if_neg h7]
+  have hk : clauseOf t = none := by simp [clauseOf, h0, h1', h2, h3, h4', h5', h6, h7]
+  rw [hk]
+  exact ⟨_, _, rfl⟩
+
+/-- **one iteration of the `range` loop = `rebStep`** -/
+theorem step_sim (values : Bytes) (e : Env) (s : RebState) (t : UInt8) (fuel : Nat)
+    (hR : Rep values e s) (ht : e.get "t" = some (.u8 t)) (hoff : s.off ≤ s.tape.size)
+    (hsz : s.tape.size + 1 < 2^64) (hf : s.tape.size + 2 ≤ fuel) :
+    StepSim values (fun _ => True) (exec goFuns fuel loopBody ⟨e, s.tape⟩) (rebStep values s t) := by
+  rw [rebStep_eq, loopBody_eq, exec_append]
+  have hh := head_sim values e s t fuel hR ht hf
+  by_cases heq : s.off = s.tape.size
+  · have hb : (s.off == s.tape.size) = true := by simp [heq]
+    rw [hb] at hh ⊢
+    simp only [if_true] at hh ⊢
+    obtain ⟨st, p, ho⟩ := hh
+    rw [ho]; exact ⟨st, p, rfl⟩
+  · have hb : (s.off == s.tape.size) = false := by simp [heq]
+    rw [hb] at hh ⊢
+    simp only [Bool.false_eq_true, if_false] at hh ⊢
+    have hlt : s.off < s.tape.size := by omega
+    rcases flushPhase_spec s t hlt with ⟨s1, e1, z1, o1⟩ | e1
+    · rw [e1] at hh ⊢
+      obtain ⟨e', ho, hR', hT'⟩ := hh
+      rw [ho]
+      simp only [Res.bind_ok]
+      exact dispatch_sim values e' s1 t fuel hR' hT' o1 (by omega)
+    · rw [e1] at hh ⊢
+      obtain ⟨st, p, ho⟩ := hh
+      rw [ho]; exact ⟨st, p, rfl⟩
+
+theorem Rep.set_t {values : Bytes} {e : Env} {s : RebState} (h : Rep values e s) (v : Val) :
+    Rep values (e.set "t" v) s := by
+  obtain ⟨h1, h2, h3, h4⟩ := h
+  exact ⟨by simp [h1], by simp [h2], by simp [h3], by simp [h4]⟩
+
+/-- **the `range` loop = `rebLoop`** -/
+theorem loop_sim (values : Bytes) (fuel : Nat) : ∀ (ts : List UInt8) (e : Env) (s : RebState),
+    Rep values e s → s.off ≤ s.tape.size → s.tape.size + 1 < 2^64 → s.tape.size + 2 ≤ fuel →
+    StepSim values (fun _ => True) (execRange goFuns fuel "t" ts loopBody ⟨e, s.tape⟩) (rebLoop values s ts) := by
+  intro ts
+  induction ts with
+  | nil =>
+    intro e s hR hoff hsz hf
+    rw [execRange, rebLoop]
+    exact ⟨e, rfl, hR, trivial⟩
+  | cons t ts ih =>
+    intro e s hR hoff hsz hf
+    rw [execRange, rebLoop]
+    have hstep := step_sim values (e.set "t" (.u8 t)) s t fuel (hR.set_t _) (by simp) hoff hsz hf
+    rcases rebStep_spec values s t hoff with ⟨s1, e1, z1, o1⟩ | ⟨err, e1⟩
+    · rw [e1] at hstep ⊢
+      obtain ⟨e', ho, hR', _⟩ := hstep
+      simp only [] at ho ⊢
+      rw [ho]
+      simp only [Res.bind_ok]
+      exact ih e' s1 hR' o1 (by omega) (by omega)
+    · rw [e1] at hstep ⊢
+      obtain ⟨st, p, ho⟩ := hstep
+      simp only [] at ho ⊢
+      rw [ho]
+      exact ⟨st, p, rfl⟩
+
+/-! ## after the loop -/
+
+/-- the statements after the loop, in the model -/
+def rebTail (values : Bytes) (s : RebState) : Res (Array UInt64) := do
+  let (tp, off) ← (if s.nSkips > 0 then
+      if s.nSkips > s.tape.size - s.off then (.error .generic : Res (Array UInt64 × Nat))
+      else flushSkips s.tape s.off s.nSkips s.nSkips
+    else .ok (s.tape, s.off))
+  if off != tp.size then .error .generic
+  else if values.size - s.vpos > 0 then .error .generic
+  else .ok tp
+
+theorem rebuild_eq (init : Array UInt64) (tags values : Bytes) :
+    rebuild init tags values = rebLoop values { tape := init } tags.toList >>= rebTail values := rfl
+
+/-- outcome of the interpreter vs result of the model -/
+def SimReb (o : Out) (r : Res (Array UInt64)) : Prop :=
+  match r with
+  | .ok tp => ∃ s, o = .ret s [.bool true, .bool false] ∧ s.tape = tp        -- `return dst, nil`
+  | .error _ => ∃ s p, o = .ret s [.bool p, .bool true]                        -- `return dst/nil, err`
+  | .panic => o = .panic
+  | .diverge => False
+
+/-- the two size checks and `return dst, nil` -/
+theorem final_exec (e : Env) (tp : Array UInt64) (off' : Nat) (v : Bytes) (fuel : Nat)
+    (h1 : e.get "off" = some (.int off')) (h4 : e.get "dst.lim" = some (.int tp.size))
+    (h3 : e.get "values" = some (.bytes v)) :
+    exec goFuns fuel (tailStmts.drop 1) ⟨e, tp⟩ =
+      if off' ≠ tp.size then .ret ⟨e, tp⟩ [.bool true, .bool true]
+      else if v.size > 0 then .ret ⟨e, tp⟩ [.bool true, .bool true]
+      else .ret ⟨e, tp⟩ [.bool true, .bool false] := by
+  rw [tail_eq]
+  by_cases ho : off' = tp.size
+  · by_cases hv : v.size > 0
+    · simp [h1, h4, h3, ho, hv, errRet]
+    · have : v.size = 0 := by omega
+      simp [h1, h4, h3, ho, this, errRet]
+  · have hne : ((off' : Int) != (tp.size : Int)) = true := by
+      have : ¬ ((off' : Int) = tp.size) := by omega
+      simp [this]
+    simp [h1, h4, h3, ho, hne, errRet]
+
+theorem final_sim (values : Bytes) (e : Env) (tp : Array UInt64) (off' vpos : Nat) (fuel : Nat)
+    (h1 : e.get "off" = some (.int off')) (h4 : e.get "dst.lim" = some (.int tp.size))
+    (h3 : e.get "values" = some (.bytes (values.extract vpos values.size))) :
+    SimReb (exec goFuns fuel (tailStmts.drop 1) ⟨e, tp⟩)
+      (if off' != tp.size then .error .generic
+       else if values.size - vpos > 0 then .error .generic
+       else .ok tp) := by
+  rw [final_exec e tp off' _ fuel h1 h4 h3, size_suffix]
+  by_cases ho : off' = tp.size
+  · have hb : (off' != tp.size) = false := by simp [ho]
+    rw [hb, if_neg (by simp [ho])]
+    simp only [Bool.false_eq_true, if_false]
+    by_cases hv : values.size - vpos > 0
+    · rw [if_pos hv, if_pos hv]; exact ⟨_, _, rfl⟩
+    · rw [if_neg hv, if_neg hv]; exact ⟨_, rfl, rfl⟩
+  · have hb : (off' != tp.size) = true := by simp [ho]
+    rw [hb, if_pos ho]
+    exact ⟨_, _, rfl⟩
+
+theorem tail_sim (values : Bytes) (e : Env) (s : RebState) (fuel : Nat)
+    (hR : Rep values e s) (hf : s.tape.size + 2 ≤ fuel) :
+    SimReb (exec goFuns fuel tailStmts ⟨e, s.tape⟩) (rebTail values s) := by
+  obtain ⟨h1, h2, h3, h4⟩ := hR
+  have hsplit : tailStmts = tailStmts.take 1 ++ tailStmts.drop 1 := rfl
+  have hvs : (values.extract s.vpos values.size).size = values.size - s.vpos := size_suffix _ _
+  rw [hsplit, exec_append]
+  unfold rebTail
+  by_cases hn : s.nSkips > 0
+  · rw [if_pos hn]
+    have hpos : 0 < s.nSkips := hn
+    have hcond : evalE ⟨e, s.tape⟩ (.bin .gt (.v "nSkips") (.int 0)) = .val (.bool true) := by
+      simp [h2, hpos]
+    by_cases hgt : s.nSkips > s.tape.size - s.off
+    · rw [if_pos hgt]
+      have hgt' : (s.tape.size : Int) - s.off < s.nSkips := by omega
+      have : exec goFuns fuel (tailStmts.take 1) ⟨e, s.tape⟩ = .ret ⟨e, s.tape⟩ [.bool true, .bool true] := by
+        simp [tail_eq, errRet, h1, h2, h4, hpos, hgt']
+      rw [this]
+      exact ⟨_, _, rfl⟩
+    · rw [if_neg hgt]
+      have hgt' : ¬ (s.tape.size : Int) - s.off < s.nSkips := by omega
+      obtain ⟨e', tp, hfl, hsz, hex, k1, k2, k3⟩ := flush_seq ⟨e, s.tape⟩ s.off s.nSkips fuel (by omega)
+        (by show s.off + s.nSkips ≤ s.tape.size; omega) h1 h2 h4
+      have hinner : exec1 goFuns fuel (.ite (.bin .gt (.v "nSkips") (.bin .sub (.lenTape "dst") (.v "off"))) errRet [])
+          ⟨e, s.tape⟩ = .normal ⟨e, s.tape⟩ := by
+        simp [h1, h2, h4, hgt']
+      have hgo : exec goFuns fuel (tailStmts.take 1) ⟨e, s.tape⟩ = .normal ⟨e', tp⟩ := by
+        simp only [tail_eq, List.take]
+        rw [exec, exec1, hcond]
+        simp only []
+        rw [exec, hinner]
+        simp only []
+        rw [hex]
+        simp only [exec]
+      rw [hgo, hfl]
+      simp only [Res.bind_ok]
+      refine final_sim values e' tp (s.off + s.nSkips) s.vpos fuel k1 ?_ ?_
+      · rw [k3 _ (by decide) (by decide) (by decide), h4, hsz]
+      · rw [k3 _ (by decide) (by decide) (by decide)]; exact h3
+  · rw [if_neg hn]
+    have hpos : ¬ 0 < s.nSkips := hn
+    have : exec goFuns fuel (tailStmts.take 1) ⟨e, s.tape⟩ = .normal ⟨e, s.tape⟩ := by
+      simp [tail_eq, h2, hpos]
+    rw [this]
+    simp only [Res.bind_ok]
+    exact final_sim values e s.tape s.off s.vpos fuel h1 h4 h3
+
+/-! ## the whole block -/
+
+/-- the inputs of the translated block: the two decompressed streams and the destination tape -/
+def rebStore (init : Array UInt64) (tags values : Bytes) : St :=
+  { env := [("s.tagsBuf", .bytes tags), ("s.valuesBuf", .bytes values), ("dst.lim", .int init.size)], tape := init }
+
+theorem SimReb.final {o : Out} {r : Res (Array UInt64)} (h : SimReb o r) (funs : String → Option FunDef)
+    (fd : FunDef) (fuel : Nat) (s : St) (he : exec funs fuel fd.body s = o) : runFun funs fd fuel s = o := by
+  unfold runFun
+  rw [he]
+  cases r with
+  | ok tp => obtain ⟨s, rfl, _⟩ := h; rfl
+  | error e => obtain ⟨s, p, rfl⟩ := h; rfl
+  | panic => simp only [SimReb] at h; subst h; rfl
+  | diverge => exact h.elim
+
+theorem body_split : goDeserialize_rebuild.body =
+    ([.assign "off" (.int 0), .assign "values" (.v "s.valuesBuf"), .assign "nSkips" (.int 0)] ++
+     [.rangeB "t" (.v "s.tagsBuf") loopBody]) ++ tailStmts := rfl
+
+/-- **the hand model `rebuild` is the meaning of the regenerated reconstruction block of `Deserialize`**
+    (`init.size + 1 < 2^64`: Go compares `val > uint64(len(dst.Tape))` and `val < uint64(off)+2` in `uint64`, the model
+    in `Nat`; fuel: the longest inner loop writes at most `len(dst.Tape)` skips). -/
+theorem rebuild_source_tie' (init : Array UInt64) (tags values : Bytes) (hsz : init.size + 1 < 2^64) (fuel : Nat)
+    (hf : init.size + 2 ≤ fuel) :
+    SimReb (runFun goFuns goDeserialize_rebuild fuel (rebStore init tags values)) (rebuild init tags values) := by
+  have key : SimReb (exec goFuns fuel goDeserialize_rebuild.body (rebStore init tags values))
+      (rebuild init tags values) := by
+    rw [body_split, exec_append, exec_append, rebuild_eq]
+    have hpre : exec goFuns fuel [.assign "off" (.int 0), .assign "values" (.v "s.valuesBuf"),
+        .assign "nSkips" (.int 0)] (rebStore init tags values) =
+        .normal ⟨[("s.tagsBuf", .bytes tags), ("s.valuesBuf", .bytes values), ("dst.lim", .int init.size),
+          ("off", .int 0), ("values", .bytes values), ("nSkips", .int 0)], init⟩ := by
+      simp [rebStore, Env.get, Env.set]
+    rw [hpre]
+    simp only []
+    rw [exec_single, exec1]
+    simp only [evalE, Env.get, String.reduceBEq, if_true]
+    generalize he0 : ([("s.tagsBuf", Val.bytes tags), ("s.valuesBuf", .bytes values), ("dst.lim", .int init.size),
+          ("off", .int 0), ("values", .bytes values), ("nSkips", .int 0)] : Env) = e0
+    have hR : Rep values e0 { tape := init } := by
+      subst he0
+      refine ⟨by simp [Env.get], by simp [Env.get], ?_, by simp [Env.get]⟩
+      simp [Env.get]
+    have hloop := loop_sim values fuel tags.toList e0 { tape := init } hR (Nat.zero_le _) hsz hf
+    simp only [] at hloop
+    rcases rebLoop_spec values tags.toList { tape := init } (Nat.zero_le _) with ⟨s1, e1, z1, o1⟩ | ⟨err, e1⟩
+    · rw [e1] at hloop ⊢
+      obtain ⟨e', ho, hR', _⟩ := hloop
+      rw [ho]
+      simp only [Res.bind_ok]
+      exact tail_sim values e' s1 fuel hR' (by simp only [] at z1; omega)
+    · rw [e1] at hloop ⊢
+      obtain ⟨st, p, ho⟩ := hloop
+      rw [ho]
+      exact ⟨st, p, rfl⟩
+  rw [key.final _ _ _ _ rfl]
+  exact key
+
+/-- the statement in the requested shape (`len(dst.Tape) < 2^56` is what a tape offset must satisfy anyway) -/
+theorem rebuild_source_tie (init : Array UInt64) (tags values : Bytes) (hsz : init.size < 2^56) (fuel : Nat)
+    (hf : init.size + 8 ≤ fuel) :
+    SimReb (runFun goFuns goDeserialize_rebuild fuel (rebStore init tags values)) (rebuild init tags values) :=
+  rebuild_source_tie' init tags values (by omega) fuel (by omega)
 
 end SJ.GoRebuild
